@@ -214,10 +214,9 @@ func c10Run(r *core.Run) {
 	depth := 3
 	r.SetBudget(70 * time.Second)
 	if r.Thorough() {
-		depth = 4
-		r.SetBudget(10 * time.Minute)
+		r.SetBudget(14 * time.Minute)
 	}
-	r.Rule = fmt.Sprintf("engine B: BFS over histories of Reg(method list,route) and Headers(i,set) applied to a fresh Flame AND, operation by operation, to plain route trees (route.AddRoute / SetHeaderMatcher, no shortcut); after every transition (and, in a second world, between the operations) every probe (2 methods+1 unknown x %d paths x %d header sets, each served twice)", len(c10Paths), len(c10ReqHdrs)) + " must give the same chosen route, parameters or not-found on both; non-trivial = probe on a state that contains a fully static route (so the shortcut table is populated or was evicted)"
+	r.Rule = fmt.Sprintf("engine B: BFS (depth 3; thorough: every history with the probe set also served between the operations, plus depth 4 over a reduced alphabet of 8 routes x {GET, POST, all methods}) over histories of Reg(method list,route) and Headers(i,set) applied to a fresh Flame AND, operation by operation, to plain route trees (route.AddRoute / SetHeaderMatcher, no shortcut); after every transition (and, in a second world, between the operations) every probe (2 methods+1 unknown x %d paths x %d header sets, each served twice)", len(c10Paths), len(c10ReqHdrs)) + " must give the same chosen route, parameters or not-found on both; non-trivial = probe on a state that contains a fully static route (so the shortcut table is populated or was evicted)"
 	r.Bounds["depth"] = depth
 	r.Bounds["ops"] = len(ops)
 	r.Bounds["max_registrations"] = c10MaxRegs
@@ -225,83 +224,109 @@ func c10Run(r *core.Run) {
 	r.Bounds["paths"] = c10Paths
 	r.Assumptions = []string{"the oracle is the implementation's own full tree matching (that is what the statement compares with); correctness of tree matching itself is C01/C02/C09"}
 	parsers := sync.Pool{New: func() interface{} { p, _ := route.NewParser(); return p }}
-	step := func(hist []int, l *core.Local) (string, bool) {
-		hops := make([]c10Op, len(hist))
-		for i, h := range hist {
-			hops[i] = ops[h]
-		}
-		p := parsers.Get().(*route.Parser)
-		defer parsers.Put(p)
-		w, ok, bad := c10Apply(p, hops)
-		if bad != "" {
-			l.Violate("registration-verdict-differs", bad, c10Case{Ops: hops})
-			return "", false
-		}
-		if !ok {
-			return "", false
-		}
-		hasStatic := false
-		for _, d := range w.desc {
-			if !strings.ContainsAny(strings.Split(d, " |")[0], "{") {
-				hasStatic = true
+	mkStep := func(ops []c10Op, depth int) func(hist []int, l *core.Local) (string, bool) {
+		return func(hist []int, l *core.Local) (string, bool) {
+			hops := make([]c10Op, len(hist))
+			for i, h := range hist {
+				hops[i] = ops[h]
 			}
-		}
-		for _, method := range []string{"GET", "POST", "BREW"} {
-			for _, path := range c10Paths {
-				for _, hdr := range c10ReqHdrs {
-					l.Evals++
-					if hasStatic {
-						l.NonTrivial++
-					}
-					bad, outcome := c10One(w, method, path, hdr)
-					if bad != "" {
-						l.Class("mismatch")
-						l.Violate("shortcut-vs-tree/"+outcome, bad+fmt.Sprintf(" [history %v, request %s %q %v]", w.desc, method, path, hdr), c10Case{Ops: hops, Method: method, Path: path, Headers: hdr})
-						continue
-					}
-					if strings.HasPrefix(outcome, "notfound") {
-						l.Class("notfound")
-					} else if strings.Contains(outcome, "{route=") && !strings.Contains(outcome, "\" ") {
-						l.Class("served:no-binds")
-					} else {
-						l.Class("served:with-binds")
+			p := parsers.Get().(*route.Parser)
+			defer parsers.Put(p)
+			w, ok, bad := c10Apply(p, hops)
+			if bad != "" {
+				l.Violate("registration-verdict-differs", bad, c10Case{Ops: hops})
+				return "", false
+			}
+			if !ok {
+				return "", false
+			}
+			hasStatic := false
+			for _, d := range w.desc {
+				if !strings.ContainsAny(strings.Split(d, " |")[0], "{") {
+					hasStatic = true
+				}
+			}
+			for _, method := range []string{"GET", "POST", "BREW"} {
+				for _, path := range c10Paths {
+					for _, hdr := range c10ReqHdrs {
+						l.Evals++
+						if hasStatic {
+							l.NonTrivial++
+						}
+						bad, outcome := c10One(w, method, path, hdr)
+						if bad != "" {
+							l.Class("mismatch")
+							l.Violate("shortcut-vs-tree/"+outcome, bad+fmt.Sprintf(" [history %v, request %s %q %v]", w.desc, method, path, hdr), c10Case{Ops: hops, Method: method, Path: path, Headers: hdr})
+							continue
+						}
+						if strings.HasPrefix(outcome, "notfound") {
+							l.Class("notfound")
+						} else if strings.Contains(outcome, "{route=") && !strings.Contains(outcome, "\" ") {
+							l.Class("served:no-binds")
+						} else {
+							l.Class("served:with-binds")
+						}
 					}
 				}
 			}
-		}
-		if len(hist) >= 2 && (r.Thorough() || (hist[0]+hist[len(hist)-1])%4 == 0) {
-			// the same history with the probe set served after every operation
-			wi, oki, _ := c10ApplyI(p, hops, true)
-			if oki {
-				for _, method := range []string{"GET", "POST", "BREW"} {
-					for _, path := range c10Paths {
-						for _, hdr := range c10ReqHdrs {
-							l.Evals++
-							_, o1 := c10One(w, method, path, hdr)
-							bad2, o2 := c10One(wi, method, path, hdr)
-							if bad2 != "" || o1 != o2 {
-								l.Violate("requests-change-routing-state", fmt.Sprintf("with the probe set served after every operation the request %s %q %v is answered %q (%s), without: %q [history %v]", method, path, hdr, o2, bad2, o1, w.desc),
-									c10Case{Ops: hops, Method: method, Path: path, Headers: hdr, Interleaved: true})
+			if len(hist) >= 2 && (r.Thorough() || (hist[0]+hist[len(hist)-1])%4 == 0) {
+				// the same history with the probe set served after every operation
+				wi, oki, _ := c10ApplyI(p, hops, true)
+				if oki {
+					for _, method := range []string{"GET", "POST", "BREW"} {
+						for _, path := range c10Paths {
+							for _, hdr := range c10ReqHdrs {
+								l.Evals++
+								_, o1 := c10One(w, method, path, hdr)
+								bad2, o2 := c10One(wi, method, path, hdr)
+								if bad2 != "" || o1 != o2 {
+									l.Violate("requests-change-routing-state", fmt.Sprintf("with the probe set served after every operation the request %s %q %v is answered %q (%s), without: %q [history %v]", method, path, hdr, o2, bad2, o1, w.desc),
+										c10Case{Ops: hops, Method: method, Path: path, Headers: hdr, Interleaved: true})
+								}
 							}
 						}
 					}
 				}
 			}
+			if len(hist) == depth && hist[0]%5 == 0 {
+				l.Sample(w.desc)
+			}
+			return strings.Join(w.desc, ";"), true
 		}
-		if len(hist) == depth && hist[0]%5 == 0 {
-			l.Sample(w.desc)
-		}
-		return strings.Join(w.desc, ";"), true
 	}
-	b := &core.BFS{NumOps: len(ops), MaxDepth: depth, Step: step, Run: r, Dedup: true}
+	b := &core.BFS{NumOps: len(ops), MaxDepth: depth, Step: mkStep(ops, depth), Run: r, Dedup: true}
 	s, t, d := b.Search()
 	loc := core.NewLocal()
 	loc.States, loc.Transitions = s, t
-	r.Merge(loc)
 	r.Notes["depth_completed"] = d
 	if d < depth {
 		r.NotExhaustive("internal deadline")
 	}
+	if r.Thorough() {
+		// one level deeper over a reduced alphabet (the shapes the shortcut logic distinguishes: static,
+		// optional-static, shadowing placeholder and match-all, static below a static, root; one or all methods)
+		var ops4 []c10Op
+		for _, m := range []string{"GET", "POST", "*"} {
+			for _, rt := range []string{"/s", "/s/", "/s/?t", "/{p}", "/{m: **}", "/s/t", "/", "/{m: **}/t"} {
+				ops4 = append(ops4, c10Op{Kind: "reg", Method: m, Route: rt})
+			}
+		}
+		for i := 0; i < 3; i++ {
+			for _, h := range c10HdrSets {
+				ops4 = append(ops4, c10Op{Kind: "headers", Target: i, Pairs: h})
+			}
+		}
+		r.Bounds["depth_4_reduced_ops"] = len(ops4)
+		b4 := &core.BFS{NumOps: len(ops4), MaxDepth: 4, Step: mkStep(ops4, 4), Run: r, Dedup: true}
+		s4, t4, d4 := b4.Search()
+		loc.States += s4
+		loc.Transitions += t4
+		r.Notes["depth_completed_reduced_alphabet"] = d4
+		if d4 < 4 {
+			r.NotExhaustive("internal deadline (depth 4 over the reduced alphabet)")
+		}
+	}
+	r.Merge(loc)
 }
 
 func c10Replay(raw json.RawMessage) (bool, string) {
